@@ -142,7 +142,7 @@ impl Session {
             }
             None => Command::new(bin),
         };
-        cmd.current_dir(&dir).stdin(Stdio::piped()).stdout(Stdio::piped()).stderr(Stdio::piped()).env("RUST_BACKTRACE", "0").env_remove("RUST_LOG");
+        cmd.current_dir(&dir).stdin(Stdio::piped()).stdout(Stdio::piped()).stderr(Stdio::piped()).env("RUST_BACKTRACE", "0").env("ASAN_OPTIONS", "detect_leaks=0:abort_on_error=1:symbolize=0").env_remove("RUST_LOG");
         if trace_log {
             cmd.env("CLN_PLUGIN_LOG", "trace");
         } else {
